@@ -67,6 +67,13 @@ def analyse_region(model, role, fi, summ=None):
                 raise AnalysisError(
                     "unrecognised marker operation in %s at %s: %s" % (fi.qual, fi.loc(node), ev.get("text", ""))
                 )
+            if k == "CLEAR":
+                # the whole set of markers replaced by an empty one
+                res.event_states.append(("REMOVE", cur, node))
+                pending.append(("C10.own-release", "the set of markers is replaced by an empty set (`%s`): the markers of the enclosing activations -- other functions, other objects whose contracts are being evaluated further up the stack -- are dropped with it, so their re-entrant calls are checked again (without bound), and the state after the call is not the state before it" % ev.get("text", ""), node, state))
+                exc_states.append(cur)
+                cur = "R"
+                continue
             if k == "TEST":
                 res.keys.append(("TEST", ev["key"], node))
                 branch = ev
